@@ -12,6 +12,7 @@ import (
 	"go/token"
 	"go/types"
 	"sort"
+	"strconv"
 	"strings"
 )
 
@@ -872,6 +873,40 @@ func tabCastCase(c *Ctx, r *R, sc *switchCase, label string) {
 		r.check(okAll, key, c.Pos(site), "CAST emitted for declared type "+goTypeOfTag[tag],
 			fmt.Sprintf("`%s x %s = <untyped or other numeric>` emits no CAST: the guard of the CAST emission is false for %s, so the variable keeps the initialiser's type (int32)", label, goTypeOfTag[tag], tag))
 	}
+	if label == "var" {
+		nillableCast(c, r, site, conds, caseLists, typObj)
+	}
+}
+
+// nillableCast: `var s []T = nil` — the declared type of a slice / map / func / pointer
+// variable is what types the initialiser nil; the guard of the CAST emission holds for the
+// nillable type values too (a later append takes its element type from the slice value).
+func nillableCast(c *Ctx, r *R, site *ast.CompositeLit, conds []ast.Expr, caseLists [][]ast.Expr, typObj types.Object) {
+	o := c.Pkg.Types.Scope().Lookup("nillableMin")
+	k, ok := o.(*types.Const)
+	if !ok {
+		r.undecided("cast nillable", c.Pos(site), "constant nillableMin not found")
+		return
+	}
+	base, _ := constant.Int64Val(constant.ToInt(k.Val()))
+	for _, delta := range []int64{0, 1, 1000} {
+		okAll := len(caseLists) == 0
+		for _, cd := range conds {
+			v, ok := c.evalWith(cd, typObj, constant.MakeInt64(base+delta))
+			if !ok || v.Kind() != constant.Bool {
+				r.undecided("cast nillable", c.Pos(site), "cannot fold the guard of the CAST emission for a nillable type")
+				return
+			}
+			if !constant.BoolVal(v) {
+				okAll = false
+			}
+		}
+		if !okAll {
+			r.fail("cast nillable", c.Pos(site), "`var s []T = nil` emits no CAST: the guard of the CAST emission is false for slice / map / func types, so the initialiser nil stays untyped — `var s []float64 = nil; s = append(s, 1)` holds an int, `var b []byte = nil; b = append(b, 300)` holds 300")
+			return
+		}
+	}
+	r.ok("cast nillable", "CAST emitted for declared slice / map / func types")
 }
 
 // ---- typed stores ----
@@ -1042,7 +1077,7 @@ func ruleOpsConst(c *Ctx, r *R) {
 				}
 			case shape == "GlobalSet":
 				b := fields["GlobalSet.B"]
-				r.check(b != nil && !isConstInt(b, 0), key, c.Pos(sc.Clause), "untyped global constant stored raw (B != 0)", "compile(\"const\") stores an untyped package-level constant through the ordinary GLOBALSET, which gives it the default type int32: `const k = 100; var u uint8 = 200; u += k` is 300:int32 (Go: 44), `const N = 3; half(N)` with a float64 parameter divides integers")
+				r.check(b != nil && globalSetModeIs(c, b, "raw"), key, c.Pos(sc.Clause), "untyped global constant stored raw (B selects the handler's raw path)", "compile(\"const\") stores an untyped package-level constant through the ordinary GLOBALSET, which gives it the default type int32: `const k = 100; var u uint8 = 200; u += k` is 300:int32 (Go: 44), `const N = 3; half(N)` with a float64 parameter divides integers")
 			case shape == "LocalZero LocalSet":
 				b := fields["LocalZero.B"]
 				r.check(okTag && isConstInt(b, untypedTag), key, c.Pos(sc.Clause), "untyped local constant: slot pre-typed untyped", "compile(\"const\") does not pre-type the slot of an untyped local constant as untyped (LOCALZERO B = untypedInt): the LOCALSET that follows gives the constant the default type int32")
@@ -1063,9 +1098,7 @@ func ruleOpsConst(c *Ctx, r *R) {
 	if ps, err := hm.single("codeGlobalSet"); err == nil {
 		raw := false
 		for _, p := range ps {
-			cs := strings.Join(p.Conds, " && ")
-			calls := strings.Join(p.Calls, "; ")
-			if strings.Contains(cs, "I.B != 0") && strings.Contains(calls, "lookup.Write(v.globals, int(I.A), Top1)") && !strings.Contains(calls, "lookup.Assign") {
+			if globalSetPathMode(p) == "raw" && len(p.Conds) > 0 {
 				raw = true
 			}
 		}
@@ -1583,4 +1616,74 @@ func (c *Ctx) convertsThroughHelper(fd *ast.FuncDecl, base, typeX string) bool {
 		return true
 	})
 	return found
+}
+
+// globalSetPathMode classifies one path of the GLOBALSET handler by what it stores: "raw"
+// (globals.Write of the popped value as it is), "declare" (globals.Write of the value given
+// its own default type, assign(TypeNil): the slot's previous content plays no part),
+// "assign" (lookup.Assign: converted to the type of the value the slot holds), or "".
+func globalSetPathMode(p *hndPath) string {
+	calls := strings.Join(p.Calls, "; ")
+	switch {
+	case strings.Contains(calls, "lookup.Assign(v.globals, int(I.A), Top1)") && !strings.Contains(calls, "lookup.Write"):
+		return "assign"
+	case strings.Contains(calls, "lookup.Write(v.globals, int(I.A), Top1)") && !strings.Contains(calls, "lookup.Assign"):
+		return "raw"
+	case strings.Contains(calls, "lookup.Write(v.globals, int(I.A), Value.assign(Top1, TypeNil))") && !strings.Contains(calls, "lookup.Assign"):
+		return "declare"
+	}
+	return ""
+}
+
+// globalSetModeIs: the constant B operand b selects a handler path of the given mode — the
+// path conditions over I.B are evaluated with the constant.
+func globalSetModeIs(c *Ctx, b *T, mode string) bool {
+	k, ok := linOf(b).isConst()
+	if !ok {
+		return false
+	}
+	hm, err := newHndMachine(c)
+	if err != nil {
+		return false
+	}
+	ps, err := hm.single("codeGlobalSet")
+	if err != nil {
+		return false
+	}
+	hit := 0
+	good := true
+	for _, p := range ps {
+		sel := true
+		for _, cd := range p.Conds {
+			v, known := evalBCond(cd, k)
+			if !known {
+				return false
+			}
+			if !v {
+				sel = false
+			}
+		}
+		if sel {
+			hit++
+			if globalSetPathMode(p) != mode {
+				good = false
+			}
+		}
+	}
+	return hit == 1 && good
+}
+
+var bCondRe = regexp.MustCompile(`^\(?I\.B (==|!=) (-?\d+)\)?$`)
+
+// evalBCond folds a handler path condition of the form I.B == k / I.B != k.
+func evalBCond(cd string, b int64) (val, known bool) {
+	m := bCondRe.FindStringSubmatch(strings.TrimSpace(cd))
+	if m == nil {
+		return false, false
+	}
+	k, _ := strconv.ParseInt(m[2], 10, 64)
+	if m[1] == "==" {
+		return b == k, true
+	}
+	return b != k, true
 }
